@@ -110,6 +110,8 @@ structure RtlFacts where
   nwRouter : List String               -- floo_nw_router, whole
   selectAll : List String              -- floo_route_select, whole
   routerAll : List String              -- floo_router, whole
+  axiChimney : List String             -- floo_axi_chimney, whole
+  nwChimney : List String              -- floo_nw_chimney, whole
   deriving Inhabited
 
 end FlooVerif.Rtl
